@@ -341,6 +341,36 @@ func checkC06(P *Prog, r *Result) {
 						continue
 					}
 				}
+				// the operand is a helper's parameter that receives a coercer's result at every call site
+				if prm, isP := cv(ta.X).(*ssa.Parameter); isP && !isExportedAPI(prm.Parent()) {
+					idx := -1
+					for i, q := range prm.Parent().Params {
+						if q == prm {
+							idx = i
+						}
+					}
+					n, all := 0, true
+					for _, caller := range P.Funcs {
+						eachInstr(caller, func(_ *ssa.BasicBlock, _ int, in2 ssa.Instruction) {
+							if ci2 := callOf(in2); ci2 != nil && ci2.static == prm.Parent() && idx >= 0 && idx < len(ci2.args()) {
+								n++
+								okSite := false
+								if ex, ok := cv(ci2.args()[idx]).(*ssa.Extract); ok {
+									if call, ok := ex.Tuple.(*ssa.Call); ok && callOf(call).dynamic && P.roleOf(call.Call.Value) == "coercer" {
+										okSite = true
+									}
+								}
+								if !okSite {
+									all = false
+								}
+							}
+						})
+					}
+					if n > 0 && all {
+						r.ok("C06/panic-site", c, pos, "coercer contract: the helper is only handed a coercer's result (configuration)")
+						continue
+					}
+				}
 				if !tainted {
 					r.ok("C06/panic-site", c, pos, "operand is schema/destination configuration: a mismatch is a documented misconfiguration panic")
 					continue
